@@ -29,7 +29,7 @@ from hidc.errors import CompilerError                 # noqa: E402
 ALPHABET = ['(', ')', '{', '}', '[', ']', ';', ',', '.', '=', '+', '-', '*', '/', '%', '==', '!=', '<', '>', '<=', '>=', '+=', '??',
             'if', 'else', 'while', 'for', 'try', 'undo', 'stop', 'preempt', 'return', 'break', 'continue', 'const', 'is', 'not', 'and', 'or',
             'int', 'byte', 'bool', 'string', 'empty', 'true', 'false', '0', '1', '70000', "'c'", '"s"', 'x', 'length', 'write', '@is_you', '@y', '!d',
-            '!is_defeat', 'all_is_win', '[]']
+            '!is_defeat', 'all_is_win', '[]', 'print', '@print', '!println', 'println', '@write', 'preempt {', '0 -']
 SMALL_ALPHABET = ['(', ')', '{', '}', ';', '=', '??', 'if', 'try', 'undo', 'int', 'x', '1', '@is_you', '!d', 'preempt', 'return', '[', ']', ',', 'is', '-', 'while', 'empty']
 CHARS = list('ab01 _@!\'"\\/+-=<>?;,.(){}[]%*\n\t#x') + ['é', '\x00', '\r']
 
@@ -105,9 +105,10 @@ def seeds(tier):
     sd = c12.layout_seeds()
     small = [(n, s) for n, s in sd if len(s) < 1500]
     rest = [(n, s) for n, s in sd if len(s) >= 1500]
+    extra = [(f'mini{k}', m) for k, m in enumerate(MINI)]
     if tier == 'quick':
-        return small[:7] + rest[:1]
-    return sd
+        return extra + small[:5] + rest[:1]
+    return extra + sd
 
 
 def items(tier):
@@ -140,7 +141,9 @@ def items(tier):
     return out
 
 
-MINI = ['empty @is_you() { write(1); }',
+MINI = ['empty !note(int k) { preempt { write(k); } } empty @is_you(int x) { try { !note(x); !truth_is_defeat(x == 1); } undo { write(0); } }',
+        'int n = 0; empty !c(int k) { for (int i = 0; i < k; !truth_is_defeat(i == 3)) { i += 1; } } empty @is_you(int x) { try { !c(x); } undo { } }',
+        'empty @is_you() { write(1); }',
         'int g = 1; int f(int a) { return a + g; } empty @is_you(int x) { try { !truth_is_defeat(f(x) == 2); } undo { write("u"); } }',
         'empty !d(int[] a) { preempt { return; } a[0] = 1; } empty @is_you(const string[] v) { int n[v.length]; try { !d(n); } stop { } write(n[0] ?? 0); }']
 
@@ -226,6 +229,15 @@ def run_item(item, tier):
                     check_text(st, pre + f'{el} a[{ln}];\nempty @is_you() {{ }}', f'global {el} array of length {ln} (unused)', W=W)
                     check_text(st, pre + f'empty @is_you() {{ {el} a[{ln}]; write(a.length); }}', f'local {el} array of length {ln}', W=W)
                     check_text(st, pre + f'{el}[] a = [];\n{el} b[{ln}];\nempty @is_you() {{ write(a.length + b.length); }}', f'global {el} arrays, empty literal + length {ln}', W=W)
+        # undefined / misspelt calls in every flavour (the compiler offers hints for some of them)
+        for name in ('print', 'println', 'printx', 'writ', 'write', 'writeln', 'sleep', 'is_defeat', 'truth_is_defeat', 'all_is_win', 'debug', 'length'):
+            for fl in ('', '@', '!'):
+                for args in ('', '1', '"s"', '1, 2', 'true', '[1]'):
+                    call = f'{fl}{name}({args});'
+                    check_text(st, f'empty @is_you() {{ {call} }}', f'call {call} in a you-function')
+                    check_text(st, f'empty @is_you() {{ try {{ {call} }} undo {{ }} }}', f'call {call} in a try body')
+                    check_text(st, f'empty !d() {{ {call} }} empty @is_you() {{ }}', f'call {call} in a defeat function')
+                    check_text(st, f'empty {fl}{name}(int a) {{ }} empty @is_you() {{ try {{ {call} }} undo {{ {call} }} }}', f'call {call} with a user definition of the name')
         for W in (2, 3, 8, 16, 64):
             for S in (0, 1, 2, 500, 10 ** 6, 10 ** 9, 10 ** 30):
                 for text in MINI:
@@ -396,6 +408,7 @@ def coverage(total, tier):
             'token_strings': f'all strings of <= {4 if tier == "thorough" else 3} tokens over {len(SMALL_ALPHABET)} tokens',
             'character_strings': f'all strings of <= 3 characters over {len(CHARS)} characters, at top level and inside a function body',
             'constant array lengths': 'global (used/unused) and local arrays of every element type with 18 constant length expressions from -32769 to 2^31 and const-variable lengths, W 2,4',
+            'calls': '12 builtin-like names x 3 flavours x 6 argument lists in you-function, try body, defeat function and next to a user definition of the same name',
             'literals': 'integer literals of 1..39, 100, 1000, 4299..4301, 5000 digits in every base; \\u{..} with 1..20 digits; each of the 256 first code points raw '
                         'in a string, at top level and in a comment; empty/CRLF/BOM/no-newline files; word sizes {0,1,-1,2,3,8,16,64} x stack sizes {-500,-1,0,1,2,500,1e6,1e9,1e30}',
             'cli': f'{len(cli_grid(tier))} invocations: 8 programs (ok, lex/parse/type/codegen errors, lint) x -m {{-8,0,8,12,16,24,64}} x -s {{-1,0,1,500,1e9}} x '
